@@ -60,11 +60,18 @@ type fakeClock struct {
 	mu     sync.Mutex // real mutex, never held across a scheduling point
 	now    time.Time
 	timers []*fakeTimer
+	// pointNow makes every clock read of a managed thread a scheduling
+	// point (concurrent scenarios: the scheduler samples the clock BEFORE
+	// it takes its lock, so the two can be separated by other calls).
+	pointNow bool
 }
 
 func newFakeClock(x *mc.X) *fakeClock { return &fakeClock{x: x, now: epoch} }
 
 func (c *fakeClock) Now() time.Time {
+	if c.pointNow {
+		c.x.Point("clock.Now")
+	}
 	c.mu.Lock()
 	defer c.mu.Unlock()
 	return c.now
